@@ -272,3 +272,56 @@ func liveRefs(v ssa.Value) int {
 	}
 	return n
 }
+
+// onceBodies: the functions whose body runs only as the argument of a (*sync.Once).Do in closeFn: the closure literal, or a
+// method / function value whose target has no other call site or use in the package.
+func onceBodies(w *World, closeFn *ssa.Function) map[*ssa.Function]bool {
+	out := map[*ssa.Function]bool{}
+	if closeFn == nil {
+		return out
+	}
+	otherUse := func(target *ssa.Function, except *ssa.Function) bool {
+		used := false
+		for _, f := range w.srcFuncs(w.Root) {
+			if f == except {
+				continue
+			}
+			instrs(f, func(in ssa.Instruction) {
+				for _, op := range in.Operands(nil) {
+					if op != nil && *op == ssa.Value(target) {
+						used = true
+					}
+				}
+			})
+		}
+		return used
+	}
+	instrs(closeFn, func(in ssa.Instruction) {
+		c := callCommon(in)
+		if c == nil || !staticCalleeIs(c, "(*sync.Once).Do") || len(c.Args) < 2 {
+			return
+		}
+		var fn *ssa.Function
+		switch x := c.Args[1].(type) {
+		case *ssa.MakeClosure:
+			fn, _ = x.Fn.(*ssa.Function)
+		case *ssa.Function:
+			fn = x
+		}
+		if fn == nil {
+			return
+		}
+		out[fn] = true
+		if fn.Synthetic != "" { // bound-method wrapper: the method it forwards to
+			instrs(fn, func(i2 ssa.Instruction) {
+				if cc := callCommon(i2); cc != nil {
+					if tgt := cc.StaticCallee(); tgt != nil && tgt.Pkg == w.Root && !otherUse(tgt, fn) {
+						// the only other mention allowed is the method value in closeFn itself
+						out[tgt] = true
+					}
+				}
+			})
+		}
+	})
+	return out
+}
